@@ -560,7 +560,7 @@ def parse_search(line):
         return d
     d["panic"] = int(m.group(1))
     d["consulted"] = int(m.group(2))
-    d["sends"] = [s for s in m.group(3).split(",") if s]
+    d["sends"] = [s for s in m.group(3).split(";") if s]
     d["infos"] = [s for s in m.group(4).split("|") if s]
     d["restored"] = int(m.group(5))
     d["tail"] = m.group(6)
